@@ -207,6 +207,10 @@ func (e *Engine) Run(t *core.Tape, cfg *core.Config, st *core.Stats) *core.Viola
 	}
 	S := r0.h.Steps
 	H := r0.h.HostCalls
+	if S > 6000 {
+		st.Discarded++
+		return nil
+	}
 	if H != free.HostSteps {
 		return core.Violationf("trace-mismatch", "fault-free run made %d host calls, the model %d\n%s", H, free.HostSteps, desc())
 	}
@@ -309,13 +313,14 @@ func (e *Engine) Run(t *core.Tape, cfg *core.Config, st *core.Stats) *core.Viola
 
 	// raise@k at every instruction boundary (stride above 1500)
 	stride := int64(1)
-	if S > 1500 {
-		stride = S/1500 + 1
+	capPts := int64(500)
+	if cfg.Thorough {
+		capPts = 1500
 	}
-	if !cfg.Thorough && S > 600 {
-		stride = S/600 + 1
+	if S > capPts {
+		stride = S/capPts + 1
 	}
-	for k := int64(1); k <= S; k += stride {
+	for k := int64(1) + int64(progHash%uint64(stride)); k <= S; k += stride {
 		if v := check(hostapi.VRaise, k); v != nil {
 			return single(v, hostapi.VRaise, k, posBefore)
 		}
